@@ -134,7 +134,11 @@ StateMethod = Callable[..., None]
 class _StateData:
     def __init__(self, wrapper: _State) -> None:
         self.name = wrapper.name
-        self.duration_attr = f"{self.name}_duration"
+        # only timed states expire: an untimed redefinition of an inherited
+        # timed state must not pick up the inherited duration
+        self.duration_attr = (
+            f"{self.name}_duration" if wrapper.duration is not None else None
+        )
         self.expires: float = 0xFFFFFFFF
         self.ran = False
         self.run = wrapper.run
@@ -648,9 +652,10 @@ class StateMachine:
             if initial_call:
                 state.ran = True
                 state.start_time = new_state_start
-                state.expires = new_state_start + getattr(
-                    self, state.duration_attr, 0xFFFFFFFF
-                )
+                duration = 0xFFFFFFFF
+                if state.duration_attr is not None:
+                    duration = getattr(self, state.duration_attr, 0xFFFFFFFF)
+                state.expires = new_state_start + duration
 
                 if self.VERBOSE_LOGGING:
                     self.logger.info("%.3fs: Entering state: %s", tm, state.name)
